@@ -123,8 +123,8 @@ Section Run.
     let '(s1, lp) := do_pokes (f_pokes f) s0 in
     match f_act f with
     | ANormal => Some (s1, head ++ lp ++ procs w dt (S pos) (np - S pos), FCont)
-    | a =>
-        match perform (react_n fuel) (f_org f) a s1 with
+    | _ =>
+        match perform (react_n fuel) (f_org f) (f_act f) s1 with
         | None => None
         | Some (s2, l2, RExn (XSW h cc cn _)) =>          (* except SwitchWorld as ex: *)
             match loop_switch (react_n fuel) h cc cn s2 with
